@@ -17,6 +17,9 @@ are fixed the unrestricted block is the largest, and the disciplined ones remain
       window lies inside its parent and is not empty  -> none of the four known findings can trigger; any alarm is new;
   discipline 1 (15 %): the same focus discipline, geometry unrestricted (windows outside their parents, empty windows);
   discipline 0 (70 %): no restriction at all.
+Every fourth history is a *scenario*: a focus chain three to five windows deep with notification switches at every
+level, side branches, distinct cursor shapes, and the focus moved back and forth across branches with a flush after
+most moves, restacking of focused windows, hide/show and shape changes in between.
 
 The generator keeps within the engine's scope guards (see harness/focus.c): no operation on closed windows or below
 them, unref only of windows without live children.
@@ -229,6 +232,67 @@ class Hist:
             emit("flush"); self.pending.clear()
 
 
+def scenario_history():
+    """Deep focus chains with notification switches at every level and distinct cursor shapes; the focus is moved back
+    and forth across branches, with a flush after most moves; restacking, shape changes and show/hide in between."""
+    L, C = rng.choice([(10, 20), (12, 30), (12, 30)])
+    note("scenario")
+    h = Hist(L, C, 0)
+    # a chain of nested windows 3..5 deep, and one or two side branches
+    depth = rng.randint(3, 5)
+    chain = [0]
+    t, l, n, c = 0, 0, L, C
+    for d in range(depth):
+        nn = max(1, n - rng.randint(0, 2)); nc = max(1, c - rng.randint(0, 3))
+        r = (rng.randint(0, n - nn), rng.randint(0, c - nc), nn, nc)
+        i = len(h.w)
+        emit("win %d %d %d %d %d %d 0" % ((i, chain[-1]) + r))
+        h.w[i] = dict(parent=chain[-1], rect=r, closed=False, freed=False, vis=True)
+        chain.append(i); n, c = nn, nc
+    sides = []
+    for _ in range(rng.randint(1, 2)):
+        p = rng.choice(chain[:-1])
+        pn, pc = h.w[p]["rect"][2], h.w[p]["rect"][3]
+        r = (rng.randint(0, max(0, pn - 1)), rng.randint(0, max(0, pc - 1)), rng.randint(1, max(1, pn // 2)), rng.randint(1, max(1, pc // 2)))
+        i = len(h.w)
+        emit("win %d %d %d %d %d %d %d" % ((i, p) + r + (rng.choice([0, 0, 2]),)))
+        h.w[i] = dict(parent=p, rect=r, closed=False, freed=False, vis=True)
+        sides.append(i)
+        if rng.random() < 0.5:
+            j = len(h.w)
+            emit("win %d %d 0 0 1 1 0" % (j, i))
+            h.w[j] = dict(parent=i, rect=(0, 0, 1, 1), closed=False, freed=False, vis=True)
+            sides.append(j)
+    allw = [i for i in h.w]
+    for i in allw:
+        if rng.random() < 0.6: emit("notify %d 1" % i)
+        if i and rng.random() < 0.8: emit("curshape %d %d" % (i, rng.choice([1, 2, 3])))
+        if i and rng.random() < 0.7:
+            n_, c_ = h.w[i]["rect"][2], h.w[i]["rect"][3]
+            emit("curpos %d %d %d" % (i, rng.randint(0, n_ - 1), rng.randint(0, c_ - 1)))
+    emit("flush")
+    targets = chain[1:] + sides
+    for _ in range(rng.randint(6, 16)):
+        x = rng.random()
+        if x < 0.55:
+            emit("focus %d" % rng.choice(targets if rng.random() < 0.9 else allw))
+            if rng.random() < 0.75: emit("flush")
+        elif x < 0.67:
+            emit("%s %d" % (rng.choice(["raise", "raisefront", "lower", "lowerback"]), rng.choice(targets)))
+            if rng.random() < 0.7: emit("flush")
+        elif x < 0.75:
+            emit("curshape %d %d" % (rng.choice(targets), rng.choice([1, 2, 3])))
+        elif x < 0.83:
+            i = rng.choice(targets); emit("hide %d" % i)
+            if rng.random() < 0.5: emit("flush")
+            emit("show %d" % i)
+        elif x < 0.9:
+            emit("notify %d %d" % (rng.choice(allw), rng.choice([0, 1])))
+        else:
+            emit("flush")
+    emit("flush")
+
+
 def random_history(disc):
     L, C = rng.choice([(1, 1), (3, 4), (6, 10), (8, 16), (8, 16), (10, 20), (12, 30)])
     note("discipline_%d" % disc)
@@ -266,7 +330,8 @@ if a.tier == "exhaustive":
 else:
     H = 1800 if a.tier == "quick" else 12000
     for k in range(H):
-        random_history(2 if k < 0.15 * H else 1 if k < 0.3 * H else 0)
+        if k % 4 == 3: scenario_history()
+        else: random_history(2 if k < 0.15 * H else 1 if k < 0.3 * H else 0)
     info = {"histories": H}
 
 open(a.out, "w").write("\n".join(lines) + "\n")
